@@ -27,6 +27,7 @@ func init() {
 		// cleanup after the connection has ended
 		goTableRule(c, "C11/GO-TABLE")
 		onErrorCancelRule(c, "C11/ONERROR-CANCEL")
+		noPanicFor(c, "C11")
 	}
 }
 
